@@ -6,6 +6,7 @@ import (
 	"time"
 
 	"github.com/zeromicro/go-zero/core/breaker"
+	"github.com/zeromicro/go-zero/core/logx"
 	"github.com/zeromicro/go-zero/core/stat"
 
 	"verifsim/simharness"
@@ -68,6 +69,10 @@ type plan struct {
 	fbRet   int // 0: returns its argument, 1: its own error, 2: nil
 	fbDur   time.Duration
 	think   think
+	// second layer (layer2_test.go)
+	l2      bool
+	ident   int // which of the run's breaker identities
+	variant int // concrete realisation of the outcome (status, gRPC code, error value, ...)
 }
 
 const (
@@ -86,6 +91,10 @@ type phase struct {
 	profile int
 	spacing time.Duration
 	plans   [][]plan
+	// second layer
+	ident      int  // identity whose history the phase builds
+	panicsOnly bool // REST sustained phase: every handler panics
+	variant    int  // sustained phase: the one failure kind of the phase
 }
 
 var runCounter int
@@ -97,7 +106,10 @@ var runCounter int
 // same process, which breaks run independence (seen by --selftest).  go-zero's own "running under
 // go test" switch (flag.Lookup("test.v") in stat's init) no longer works: the testing flags are
 // registered after package initialisation.
-func init() { stat.SetReporter(nil) }
+func init() {
+	stat.SetReporter(nil)
+	logx.Disable() // the REST middleware and the stores log every rejection
+}
 
 var deltas = []time.Duration{0, -1, 1}
 
@@ -321,7 +333,14 @@ func drawPhases(t *simrt.Tape, tier string, registry bool) []*phase {
 				ph.gap = 10*time.Second + bucketDur + time.Duration(t.Intn(2000))*time.Millisecond
 			}
 			var ps []plan
-			for j, n := 0, t.Range(100, 400); j < n; j++ {
+			// (the law is tight when the failures stay below 10% of the accepted calls for most
+			// of a window: many accepted calls, one failure per slot)
+			lo, hi := 100, 400
+			if t.Bool() {
+				lo, hi = 300, 800
+			}
+			extras := t.Intn(3)
+			for j, n := 0, t.Range(lo, hi); j < n; j++ {
 				p := drawPlan(t, 0, 0, registry, false)
 				p.outcome, p.ctx = outOK, ctxNone
 				ps = append(ps, p)
@@ -333,7 +352,7 @@ func drawPhases(t *simrt.Tape, tier string, registry bool) []*phase {
 					p.think.delta = 0
 				}
 				ps = append(ps, p)
-				for k := t.Intn(3); k > 0; k-- {
+				for k := t.Intn(extras + 1); k > 0; k-- {
 					ps = append(ps, drawPlan(t, 100, 0, registry, false))
 				}
 			}
@@ -365,6 +384,11 @@ func (w *world) doThink(th think) {
 
 func body(r *simrt.Run, tier string) {
 	t := r.Tape
+	// a third of the runs goes through one of the second-layer wrappers
+	if t.Intn(3) == 2 {
+		bodyLayer2(r, tier)
+		return
+	}
 	w := &world{r: r}
 	registry := t.Chance(1, 4)
 	phases := drawPhases(t, tier, registry)
@@ -510,10 +534,22 @@ func (w *world) checkOpens(from int, spacing time.Duration) {
 	}
 	r.Probe("sustained-failure-checked")
 	if counted >= tail/2 && rej*100 < counted*80 {
-		r.Fail("does-not-open", "sustained total failure: only %d of the last %d calls (within %v) were rejected", rej, counted, span)
+		class := "does-not-open"
+		if w.opensClass != "" {
+			class = w.opensClass
+		}
+		r.Fail(class, "sustained total failure: only %d of the last %d calls (within %v) were rejected", rej, counted, span)
 	}
 }
 
+// config is the default swarm with a wider step budget: a second-layer run through the REST
+// middleware spends extra scheduling points in the metrics executor for every rejected request.
+func config(t *simrt.Tape, tier string) simrt.Config {
+	cfg := simharness.DefaultConfig(t, tier)
+	cfg.MaxSteps = 90000
+	return cfg
+}
+
 func TestSim(t *testing.T) {
-	simharness.Main(t, &simharness.Spec{ID: "C01", Body: body, CrashIsViolation: true})
+	simharness.Main(t, &simharness.Spec{ID: "C01", Body: body, Config: config, CrashIsViolation: true})
 }
